@@ -170,5 +170,36 @@ k_process_array!(k_c02_process_array1, 1, |store, size| Value::Array1(Box::new(A
 k_process_array!(k_c02_process_array2, 2, |store, size| Value::Array2(Box::new(ArrayS::<2> { data: [7, 9], value_id: no_handle(), size })));
 k_process_array!(k_c02_process_arrayn, 3, |store, size| Value::Array(Box::new(Array { data: vec![7u8, 9, 11].into_boxed_slice(), value_id: no_handle(), size })));
 
+// ---- the content-address arm of the real Property::process + finalize: the pack-id and content-id columns hold every address shown
+// ---- (three of them: a run of equal pack ids followed by a different one is the interesting shape), are minimal, and a constant pack id
+// ---- is kept as the default -- written on the pack-id width, so that width must hold it too
+// oblig: C02.a.process_content_address kind=complete timeout=900 tier=quick
+#[kani::proof]
+#[kani::unwind(10)]
+fn k_c02_process_content_address() {
+    let (p1, p2, p3): (u16, u16, u16) = kani::any();
+    let (c1, c2, c3): (u32, u32, u32) = kani::any();
+    let mut p = Property::<&'static str>::new_content_address("x");
+    let mk = |pk: u16, ct: u32| OneValue(Value::Content(crate::common::ContentAddress::new(PackId::from(pk), ContentIdx::from(ct))));
+    p.process::<&'static str>(&mk(p1, c1));
+    p.process::<&'static str>(&mk(p2, c2));
+    p.process::<&'static str>(&mk(p3, c3));
+    match p.finalize() {
+        layout::Property::ContentAddress { content_id_size, pack_id_size, default, name: _ } => {
+            let (pn, cn) = (pack_id_size as usize, content_id_size as usize);
+            assert!(fits_u(p1 as u64, pn) && fits_u(p2 as u64, pn) && fits_u(p3 as u64, pn));
+            assert!(fits_u(c1 as u64, cn) && fits_u(c2 as u64, cn) && fits_u(c3 as u64, cn));
+            assert!(pn == 1 || !fits_u(p1 as u64, pn - 1) || !fits_u(p2 as u64, pn - 1) || !fits_u(p3 as u64, pn - 1));
+            assert!(cn == 1 || !fits_u(c1 as u64, cn - 1) || !fits_u(c2 as u64, cn - 1) || !fits_u(c3 as u64, cn - 1));
+            // a default is only kept for a column that never varied, and it is that very pack id
+            assert!(default.is_none() || (p1 == p2 && p2 == p3 && default == Some(p1)));
+            assert!(default.is_some() || !(p1 == p2 && p2 == p3));
+        }
+        _ => assert!(false),
+    }
+    kani::cover!(p1 == p2 && p2 != p3 && p1 > 255);
+    kani::cover!(p1 == p2 && p2 == p3 && p1 > 255);
+}
+
 // (tried and dropped: a harness on schema::Properties::{finalize,process} -- a Vec of two properties through into_iter().chain().map().collect()
 // makes CBMC run out of memory (> 60 GB); those two one-line adapter chains stay an assumption of C02)
